@@ -1083,7 +1083,7 @@ def run(ctx):
                        'call walks: a bare path_integral(grid) is only issued after model() / partial_model() / path_integral() '
                        '(the state model() documents as prepared); the walks of one configuration are replayed one after the other on one object',
                        'TLC + CommunityModules Json/IOUtils; exported term lists evaluated with Python Fractions']
-    pf = Prefetch(width=3)
+    pf = Prefetch(width=3 if q else 4)
     try:
         _run(ctx, q, pf)
     finally:
@@ -1097,8 +1097,27 @@ def _run(ctx, q, pf):
     ip_cfg = 'EX_Emission_interp.cfg' if q else 'EX_Emission_interp_thorough.cfg'
     k_cfgs = ['EX_EmissionK_quick.cfg', 'EX_EmissionK_quick3.cfg'] if q else ['EX_EmissionK_thorough.cfg', 'EX_EmissionK_quick3.cfg']
     c_cfgs = ['MC_EmissionCalls_quick.cfg'] if q else ['MC_EmissionCalls_thorough.cfg', 'MC_EmissionCalls_thorough3.cfg']
+    exhaustive = [('exhaustive', 'MC_Emission', 'MC_Emission_%s.cfg' % ctx.tier, ('Surface', 'Layer', 'Integrate', 'Normalise')),
+                  ('exhaustive-quadratures', 'MC_Emission', 'MC_Emission_quads.cfg', ())]
+    if not q:
+        exhaustive += [('exhaustive-4-layers', 'MC_Emission', 'MC_Emission_thorough4.cfg', ()),
+                       # the stale-source variant satisfies every OTHER clause: only PerLayerSource (and the exact vectors) see it
+                       ('consequences-blind-to-stale-source', 'MC_Emission', 'MC_Emission_refute_source_others.cfg', ())]
+    exhaustive += [('exhaustive-ktable', 'MC_EmissionK', 'MC_EmissionK_quick.cfg', ('EKEmit', 'EKIntegrate', 'EKNormalise')),
+                   ('exhaustive-ktable-3-points', 'MC_EmissionK', 'MC_EmissionK_quick3.cfg', ())]
+    if not q:
+        exhaustive += [('exhaustive-ktable-3-layers', 'MC_EmissionK', 'MC_EmissionK_thorough.cfg', ())]
+    big = ('exhaustive', 'exhaustive-4-layers', 'exhaustive-ktable-3-layers') if not q else ()
+
+    def submit_exhaustive(only_big):
+        for label, module, cfg, acts in exhaustive:
+            if (label in big) == only_big:
+                pf.submit(label, module, cfg, workers=8 if label in big else 6, deque=True, coverage=bool(acts))
+
     pf.submit('export-' + ip_cfg[3:-4], 'MC_Emission', ip_cfg, workers=1, deque=True)
     pf.submit('export-' + ex_cfgs[0][3:-4], 'MC_Emission', ex_cfgs[0], workers=1, deque=True)
+    # thorough: the three long exhaustive runs (minutes) go next, so that they run while the vectors are replayed
+    submit_exhaustive(True)
     pf.submit('export-' + k_cfgs[0][3:-4], 'MC_EmissionK', k_cfgs[0], workers=1, deque=True)       # the slowest export
     for cfg in ex_cfgs[1:]:
         pf.submit('export-' + cfg[3:-4], 'MC_Emission', cfg, workers=1, deque=True)
@@ -1117,18 +1136,7 @@ def _run(ctx, q, pf):
                     ('refute-opacity-rescaled-in-place', 'MC_EmissionCalls', 'MC_EmissionCalls_refute_opacity.cfg', 'EveryPathDocumented')]
     for label, module, cfg, inv in refutes:
         pf.submit(label, module, cfg, workers=1 if module == 'MC_EmissionCalls' else 2, allow_violation=True)
-    exhaustive = [('exhaustive', 'MC_Emission', 'MC_Emission_%s.cfg' % ctx.tier, ('Surface', 'Layer', 'Integrate', 'Normalise')),
-                  ('exhaustive-quadratures', 'MC_Emission', 'MC_Emission_quads.cfg', ())]
-    if not q:
-        exhaustive += [('exhaustive-4-layers', 'MC_Emission', 'MC_Emission_thorough4.cfg', ()),
-                       # the stale-source variant satisfies every OTHER clause: only PerLayerSource (and the exact vectors) see it
-                       ('consequences-blind-to-stale-source', 'MC_Emission', 'MC_Emission_refute_source_others.cfg', ())]
-    exhaustive += [('exhaustive-ktable', 'MC_EmissionK', 'MC_EmissionK_quick.cfg', ('EKEmit', 'EKIntegrate', 'EKNormalise')),
-                   ('exhaustive-ktable-3-points', 'MC_EmissionK', 'MC_EmissionK_quick3.cfg', ())]
-    if not q:
-        exhaustive += [('exhaustive-ktable-3-layers', 'MC_EmissionK', 'MC_EmissionK_thorough.cfg', ())]
-    for label, module, cfg, acts in exhaustive:
-        pf.submit(label, module, cfg, workers=6, deque=True, coverage=bool(acts))
+    submit_exhaustive(False)
     _tick('submitted')
 
     # ---- binding A
